@@ -78,7 +78,7 @@ def shrink(ops, pred, budget=200):
             if cand and pred(cand):
                 ops, changed = cand, True
                 break
-            if ops[i][0] == "with" and ops[i][3]:
+            if ops[i][0] in ("with", "withx") and ops[i][3]:
                 for j in range(len(ops[i][3])):
                     c2 = json.loads(json.dumps(ops))
                     del c2[i][3][j]
@@ -101,7 +101,10 @@ def seq_stats(ctx, mode, ops, itr):
         ctx.dist("%s/op=%s" % (mode, o[0]))
         for x in g:
             ctx.dist("%s/outcome=%s" % (mode, x["out"] or "ok"))
-        if o[0] in ("set", "with"):
+        if o[0] in ("with", "withx"):
+            ctx.dist("%s/with-body=%s" % (mode, "empty" if not o[3] else "raise-only" if all(b[0] == "raise" for b in o[3])
+                                          else "statements+raise" if o[3][-1][0] == "raise" else "statements"))
+        if o[0] in ("set", "with", "withx"):
             if o[2]:
                 ctx.dist("%s/set-form=keyword" % mode)
             if isinstance(o[1], dict):
@@ -171,6 +174,120 @@ def check_private(ctx: Ctx):
     mid = keep[len(keep) // 2]
     ctx.sample({"kind": "private", "mode": mid[0], "ops": mid[1], "final_tree": mid[3][-1][-1]["tree"]})
     ctx.log("private pair: %d sequences, %d oracle findings, %d disagreements" % (len(keep), n_or, nd))
+
+
+# ------------------------------------------------------------------------------ update / merge called directly
+def direct_impl(c):
+    """(outcome, resulting tree) of the real helper"""
+    import copy
+    from quantem.core import config as C
+    from ..impl_C19 import classify, to_abstract
+    try:
+        if c[0] == "merge":
+            res = C.merge(*copy.deepcopy(c[1]))
+        else:
+            old = copy.deepcopy(c[1])
+            res = old
+            ret = C.update(old, copy.deepcopy(c[2]), priority=c[3], defaults=copy.deepcopy(c[4]))
+            if ret is not old:
+                return ("NotInPlace", sort_tree(to_abstract(old)))
+        return (None, sort_tree(to_abstract(res)))
+    except Exception as e:  # noqa
+        return (classify(e), sort_tree(to_abstract(res)) if c[0] == "update" else None)
+
+
+def direct_expr(c):
+    if c[0] == "merge":
+        return "(fun r => (Node (fst r), snd r)) (merge validate_nogpu [%s])" % "; ".join(citems(d) for d in c[1])
+    prio = {"old": "POld", "new": "PNew", "new-defaults": "PNewDefaults"}[c[3]]
+    dv = "None" if c[4] is None else "(Some (Node %s))" % citems(c[4])
+    return "(fun r => (Node (fst r), snd r)) (update_items validate_nogpu %s %s %s %s)" % (
+        prio, citems(c[2]), citems(c[1]), dv)
+
+
+def direct_findings(c, out, tree):
+    """the docstring contract of update / merge, on shape-compatible inputs: 'new' lets the new
+    values win, 'old' keeps every existing value and only adds missing ones, 'new-defaults'
+    replaces exactly the values still equal to the given defaults; nothing else is touched"""
+    from ..oracle_C19 import ref_get, ref_merge
+    from ..impl_C19 import leaf_paths, npath, comparable, norm_tree
+    if out is not None:
+        return []
+    if c[0] == "merge":
+        want = ref_merge(c[1])
+        return [] if norm_tree(want) == norm_tree(tree) else [
+            ("merge-not-last-writer", "merge(%r) gives %r, expected %r" % (c[1], tree, sort_tree(want)))]
+    old, new, prio, dfl = c[1], c[2], c[3], c[4]
+    finds, written = [], []
+    for p, x in leaf_paths(new):
+        if not p:
+            continue
+        written.append(npath(p))
+        if isinstance(x, dict):
+            continue
+        had, b = ref_get(old, p)
+        shape_ok = all(not ref_get(old, p[:i])[0] or isinstance(ref_get(old, p[:i])[1], dict) for i in range(1, len(p))) \
+            and not isinstance(b, dict)
+        if not shape_ok:
+            continue
+        if prio == "new" or not had:
+            want = x
+        elif prio == "old":
+            want = b
+        else:
+            dhad, dv = ref_get(dfl or {}, p)
+            if isinstance(dv, dict) or (dhad and (dv == b) != (type(dv) is type(b) and dv == b)):
+                continue
+            dshape = all(not ref_get(dfl or {}, p[:i])[0] or isinstance(ref_get(dfl or {}, p[:i])[1], dict)
+                         for i in range(1, len(p)))
+            if not dshape:
+                continue
+            want = x if (dhad and dv == b) else b
+        found, got = ref_get(tree, p)
+        if not found or got != want or type(got) is not type(want):
+            finds.append(("update-priority-%s" % prio,
+                          "update(%r, %r, priority=%r, defaults=%r): %s should be %r afterwards, got %s"
+                          % (old, new, prio, dfl, ".".join(p), want, repr(got) if found else "missing")))
+            break
+    for p, x in leaf_paths(old):
+        if not p or any(comparable(npath(p), q) for q in written):
+            continue
+        found, y = ref_get(tree, p)
+        if not found or y != x:
+            finds.append(("sibling-dropped", "update(%r, %r, priority=%r): %s was %r, now %s"
+                          % (old, new, prio, ".".join(p), x, repr(y) if found else "missing")))
+            break
+    return finds
+
+
+def check_direct(ctx: Ctx):
+    r = ctx.rng
+    cases = [c["case"] for c in corpus() if c.get("kind") == "direct"]
+    cases += [G.gen_direct(r) for _ in range(ctx.budget(240, 4000))]
+    exprs, keep = [], []
+    for c in cases:
+        out, tree = direct_impl(c)
+        finds = direct_findings(c, out, tree)
+        for key, what in finds:
+            ctx.violation(key, what, {"kind": "direct", "case": c})
+        ctx.dist("direct/%s" % (c[0] if c[0] == "merge" else "update-" + c[3]))
+        ctx.dist("direct/outcome=%s" % (out or "ok"))
+        ctx.count(("direct", json.dumps(c, sort_keys=True)), nontrivial=out is None and bool(tree))
+        exprs.append(direct_expr(c))
+        keep.append((c, out, tree, bool(finds)))
+    vals = ctx.coq_eval("direct", PRE, exprs, shard=ctx.budget(40, 120))
+    nd = 0
+    for (c, out, tree, bad), v in zip(keep, vals):
+        mtree, mout = sort_tree(from_coq_cfg(v[0])), from_coq_outcome(v[1])
+        ctx.cov["traces_validated_against_impl"] += 1
+        if mout != out or (tree is not None and mtree != tree):
+            nd += 1
+            ctx.cov["disagreements_checked"] += 1
+            ctx.violation("%s-correspondence" % c[0],
+                          "quantem.core.config.%s and the model disagree on %r: implementation %r / %r, model %r / %r"
+                          % (c[0], c, out, tree, mout, mtree), {"kind": "direct", "case": c}, found_input=bad)
+    ctx.sample({"kind": "direct", "case": keep[len(keep) // 2][0], "result": keep[len(keep) // 2][2]})
+    ctx.log("update/merge called directly: %d cases, %d disagreements" % (len(keep), nd))
 
 
 # ------------------------------------------------------------------------------ real module globals
@@ -291,6 +408,7 @@ def run(ctx: Ctx):
     ]
     ctx.proofs_or_violation()
     check_private(ctx)
+    check_direct(ctx)
     check_globals(ctx)
 
 
